@@ -125,5 +125,7 @@ def run(ctx, rule="CONTROL"):
             "uint_arith": ["uint-arith"], "uint_arith_converted": [],
             "stale_buffer": ["stale-buffer"], "fresh_buffer": [],
             "assert_same": ["assert-falls"], "assert_same_raises": [],
-            "unsafe_int_cast": ["unsafe-int-cast"], "safe_int_cast": []}
+            "unsafe_int_cast": ["unsafe-int-cast"], "safe_int_cast": [],
+            "Cache.cache_escape": ["cache-escape"], "Cache.cache_frozen": [],
+            "return_before_check": ["return-before-check"], "check_before_return": []}
     ctx.ob(rule, "py-slips", got == want, fx, "python slip lints on the fixture: %s" % got)
